@@ -117,6 +117,8 @@ def check(model: Model, run: Run) -> None:
     sibling_constants(model, run)
     # ---- (d) the primitives never modify the buffers they are handed ---------------------
     argument_mutation(model, run, fns)
+    # ---- (e) a constructed value is flushed as written, under the tag it was opened with ----
+    constructed_flush(model, run)
 
 
 
@@ -284,3 +286,68 @@ def argument_mutation(model: Model, run: Run, fns) -> None:
                 run.fail(Finding("A2-no-argument-mutation", fi.qualname, norm(x)[:80], f"{fi.name}: {bad}: the caller's buffer is changed by encoding/decoding it", model.loc(fi.module, x)))
         run.ob("A2-no-argument-mutation", True)
     run.floor("asn1 functions checked for argument mutation", n, 30)
+
+
+def constructed_flush(model: Model, run: Run) -> None:
+    """S6: when a nested writer is closed, the packing routine receives the three fields of the tag the writer was opened
+    with (each from the stored tag, matched to the routine's parameters by type) and the octets accumulated by the write_*
+    calls, untouched.  A constant in place of a tag field, or contents that went through another function first, makes the
+    emitted TLV differ from what the caller asked for."""
+    from ..anchors import asn1 as asn1_anchors
+    from ..resolve import Resolver
+    an = asn1_anchors(model)
+    ex = an.exit_method
+    pk = an.packer
+    r = Resolver(model)
+    calls = [c for c in walk_no_nested(ex.node) if isinstance(c, ast.Call) and isinstance(c.func, ast.Name) and model.resolve_name(ex.module, c.func.id) == pk.qualname]
+    if len(calls) != 1:
+        raise AnalysisError(f"{ex.qualname}: {len(calls)} calls of the packing routine {pk.name}")
+    call = calls[0]
+    binds = {}
+    for a in walk_no_nested(ex.node):
+        if isinstance(a, (ast.Assign, ast.AnnAssign)) and a.value is not None:
+            for t_ in (a.targets if isinstance(a, ast.Assign) else [a.target]):
+                if isinstance(t_, ast.Name):
+                    binds.setdefault(t_.id, []).append(a.value)
+
+    def origins(e: ast.expr, depth: int = 0) -> List[ast.expr]:
+        if isinstance(e, ast.Name) and e.id in binds and depth < 4:
+            return [o for b in binds[e.id] for o in origins(b, depth + 1)]
+        if isinstance(e, ast.Attribute) and isinstance(e.value, ast.Name) and e.value.id in binds and depth < 4:
+            return [ast.Attribute(value=o, attr=e.attr, ctx=ast.Load()) for b in binds[e.value.id] for o in origins(b, depth + 1)]
+        return [e]
+    # the buffer the write_* methods fill: the attribute of self that most of them extend
+    from collections import Counter
+    wr = model.cls(f"{ASN1}.ASN1Writer")
+    ext = Counter(norm(c.func.value) for m_ in wr.methods.values() if m_.name.startswith("write_") for c in ast.walk(m_.node)
+                  if isinstance(c, ast.Call) and isinstance(c.func, ast.Attribute) and c.func.attr == "extend" and norm(c.func.value).startswith("self."))
+    if not ext:
+        raise AnalysisError("ASN1Writer.write_* methods do not extend an attribute of self")
+    buf = ext.most_common(1)[0][0]
+    pparams = pk.node.args.posonlyargs + pk.node.args.args
+    pairs = [(pparams[i], a) for i, a in enumerate(call.args) if i < len(pparams)] + [(p_, k.value) for k in call.keywords for p_ in pparams if p_.arg == k.arg]
+    run.floor("arguments of the packing routine at the flush", len(pairs), 4)
+    for p_, a in pairs:
+        pt = r.anno(pk.module, p_.annotation)
+        for o in origins(a):
+            label = {"parameter": p_.arg, "argument": norm(o)[:60]}
+            if pt in (("prim", "byteslike"), ("prim", "bytes"), ("prim", "bytearray"), ("prim", "memoryview")):
+                ok = norm(o) == buf
+                why = f"the contents handed to {pk.name} are `{norm(o)[:60]}`, not the octets the write_* calls accumulated in `{buf}`"
+            else:
+                ft = r.type_of(o, ex) if isinstance(o, ast.Attribute) else None
+                src_is_tag = isinstance(o, ast.Attribute) and isinstance(o.value, ast.Attribute) and norm(o.value).startswith("self.")
+                ok = bool(src_is_tag) and ft is not None and _compatible(r.strip_opt(ft), r.strip_opt(pt))
+                why = f"`{p_.arg}` of {pk.name} receives `{norm(o)[:60]}` instead of the matching field of the tag the writer was opened with"
+            run.ob("S6-constructed-value-flushed-as-written", ok, label)
+            if not ok:
+                run.fail(Finding("S6-constructed-value-flushed-as-written", ex.qualname, f"{p_.arg}={norm(o)[:60]}", f"ASN1Writer.{ex.name}: {why}", model.loc(ex.module, call)))
+
+
+def _compatible(ft, pt) -> bool:
+    if ft == pt:
+        return True
+    ints = (("prim", "int"),)
+    def is_intlike(t_):
+        return t_ in ints or (t_[0] == "inst" and t_[1].endswith("TypeTagNumber"))
+    return is_intlike(ft) and is_intlike(pt)
